@@ -75,7 +75,7 @@ Proof. exact load_without_routines_is_identity. Qed.
 Print Assumptions C05_load_without_routines_is_identity.
 
 (* Every branch, loop exit, break, call and return of the compiled code leads where the source says, for every program of the
-   covered statements, if / else, blocks, while / counted / endless loops, breaks, calls of routines that do not reach themselves
+   covered statements, if / else, blocks, while / counted / endless loops, breaks, calls of routines (also of the routine itself)
    and returns, nested to any depth (Lang/Simulation3.v): whatever values the conditions take, when the source semantics says the
    statement ends normally the machine stands directly behind the statement's code, when it says `break` the machine stands at the
    END_LOOP of the innermost enclosing loop -- in both cases with the evaluation stack it was entered with and with frames that
@@ -85,7 +85,7 @@ Print Assumptions C05_load_without_routines_is_identity.
 From Bardolph Require Import Lang.Syntax Lang.Sem Lang.ExprCompile Lang.Simulation Lang.CallFrames Lang.Simulation3.
 
 Theorem C05_structured_control_leads_where_the_source_says :
-  forall rt mt inl inr st, SimpleB rt mt inl inr st ->
+  forall rt mt, bodies_ok rt mt -> forall inl inr st, SimpleB rt mt inl inr st ->
   forall after im ss s sig ss' fuel, routines_loaded rt mt im -> in_loop_ok inl after -> in_ret_ok inr (m_frames s) ->
   depth_ok (m_frames s) (zlength (m_stack s)) -> sim ss s -> code_at im (m_pc s) (c_stmt rt mt false after st) ->
   Sem.exec rt mt fuel false ss st = ROk sig ss' ->
